@@ -16,9 +16,23 @@ for d in sorted(glob.glob(f'/verif/seeded/C*_*')):
     f = m.get('files_touched')
     prev.append(f"- [{os.path.basename(d)}] {t} (files: {f})")
 avoid = "\n".join(prev)
+extra = ""
+if rnd >= 4:
+    extra = ("ROUND %d FOCUS. Three earlier rounds concentrated on comparison operators, thresholds, caches and "
+             "aliasing. This time look elsewhere: (1) NUMERICS on inputs that are not small integers - reordered or "
+             "'simplified' floating-point expressions, a float32 or integer intermediate, a different rounding / "
+             "truncation, loss of precision for large magnitudes or tiny extents, -0.0 / subnormal / inf handling - "
+             "where the answer changes only for non-representable decimals, near-ties or extreme magnitudes; (2) the "
+             "GLUE between components - wrappers on GeoSeries / GeoDataFrame / Dask collections, argument defaults, "
+             "keyword pass-through, dtype / subtype conversion (int16, int32, float32), index and column-name handling, "
+             "pickling / copying / concatenation of derived objects; (3) behaviour that depends on HISTORY - what was "
+             "called before on the same object, in the same process, on the same path; (4) error paths that now "
+             "swallow or mis-handle a condition and return a plausible wrong answer instead of raising. Avoid anything "
+             "that a single ordinary call on a small integer-valued input would expose. Whatever you choose, the demonstration must remain a violation of the property AS STATED above, on inputs inside its quantifier (read the QUANTIFIED OVER text carefully: if it restricts inputs to exactly representable values, your failing input must respect that).\n" % rnd)
 print(base)
 print(f"""
 ADDITIONAL RULES FOR THIS ROUND. Earlier testers already produced the changes listed below (for this and for neighbouring properties). Do NOT repeat any of them or a close variant (same function and same idea); look for breakages in OTHER mechanisms, other entry points, other input classes or other operation sequences — e.g. wrappers and glue code rather than the core kernel, rarely-used forms (scalar form, `inds` form, GeoSeries/GeoDataFrame/Dask wrappers), boundary sizes, dtype handling, caching, argument handling, ordering. Name your two changes {pid}_{A} and {pid}_{B} (directories `_seed/{pid}_{A}`, `_seed/{pid}_{B}`). In this round prefer changes of the kinds that are hardest to notice: two cooperating sites that each look fine alone, a multi-step sequence of operations (cache warm-up, derive, mutate, re-use), behaviour that differs only at a size/count threshold (page size, >= 11 partitions, >= 2^16 elements, p at a dtype boundary), a fault or interleaving at one particular point, state shared between objects (cached attributes, shared buffers, metas), or argument handling (types, aliasing, mutation of the caller's objects).
+{extra}
 Already done:
 {avoid}
 """)
